@@ -13,7 +13,7 @@ def shapesOf (proto : String) : Option Shapes :=
   let e := Gen.Shapes.emit
   let r := Gen.Shapes.resetUint64
   match proto with
-  | "http" => some { regReq := Gen.Shapes.httpRegisterRequest, regResp := Gen.Shapes.httpRegisterResponse, emit := e, reset := r }
+  | "http" | "http10" => some { regReq := Gen.Shapes.httpRegisterRequest, regResp := Gen.Shapes.httpRegisterResponse, emit := e, reset := r }
   | "redis" => some { regReq := Gen.Shapes.redisRegisterRequest, regResp := Gen.Shapes.redisRegisterResponse, emit := e, reset := r }
   | "amqp" => some { regReq := Gen.Shapes.amqpRegisterRequest, regResp := Gen.Shapes.amqpRegisterResponse, emit := e, reset := r }
   | "kafka" => some { regReq := Gen.Shapes.kafkaRegisterRequest, regResp := Gen.Shapes.kafkaRegisterResponse, emit := e, reset := r, respPolls := true }
@@ -68,6 +68,21 @@ def judgeMatch (proto payload impl : String) : Verdict :=
         model := m.toStr, spec := s!"items=(k,k) for k=1..{n} once each; residue empty" }
     | _, _ => .bad "bad-case"
   | _, _ => .bad "bad-case"
+
+/-! ### sched.excl (C09, C10, C19): a locked region excludes -/
+
+/-- While one task is parked at a yield point inside a locked region, the other task of the same
+    connection (the same Emitting) must block: it may stop at points outside locked regions first,
+    but it must not reach a point inside one (`*.mid`), nor finish. -/
+def judgeExcl (_payload impl : String) : Verdict :=
+  let ok := match Sx.parse impl with
+    | some (.list [.atom "excl", .atom "reached", .list (.atom "after" :: steps)]) =>
+      let names := steps.filterMap fun | .atom a => some a | _ => none
+      names.length == steps.length && names.getLast? == some "blocked" &&
+        names.all (fun a => a != "done" && !a.endsWith ".mid")
+    | _ => false
+  { corr := ok, implSpec := ok, modelSpec := true, tags := [], nontrivial := true, cls := "excl",
+    model := "(excl reached (after ... blocked))", spec := "the other task blocks while one is inside the locked region" }
 
 /-! ### sched.emit (C19) -/
 
